@@ -161,6 +161,7 @@ type IfCfg struct {
 	Index   uint64 `json:"index"`
 	Net     uint32 `json:"net"` // local /31: Net is the local address, Net|1 the neighbor's
 	Extra   int    `json:"extra,omitempty"` // additional /24 addresses on the interface
+	Dup     int    `json:"dup,omitempty"`   // the first Dup addresses of the interface are configured a second time as /32
 }
 
 type Cfg struct {
@@ -260,6 +261,9 @@ func (h *H) addrs(ic IfCfg) []*bnet.Prefix {
 	for i := 0; i < ic.Extra; i++ {
 		ps = append(ps, bnet.NewPfx(bnet.IPv4(0xac100001+uint32(ic.Index&0xff)<<16+uint32(i)<<8), 24).Ptr())
 	}
+	for i, n := 0, len(ps); i < ic.Dup && i < n; i++ {
+		ps = append(ps, bnet.NewPfx(ps[i].Addr(), 32).Ptr())
+	}
 	return ps
 }
 
@@ -286,6 +290,20 @@ func (h *H) Event(name string, up bool) {
 	oper := uint8(device.IfOperDown)
 	if up {
 		oper = device.IfOperUp
+	}
+	h.upd.client(name).DeviceUpdate(&Dev{Index: ic.Index, Oper: oper, Addrs: h.addrs(ic)})
+}
+
+// EventState delivers a device event carrying the given operational state (harness Updater only;
+// device.MockServer knows up and down).
+func (h *H) EventState(name string, oper uint8) {
+	ic := h.ifc(name)
+	if h.ms != nil {
+		if oper != device.IfOperUp && oper != device.IfOperDown {
+			panic("isish: device.MockServer cannot report operational state " + fmt.Sprint(oper))
+		}
+		h.Event(name, oper == device.IfOperUp)
+		return
 	}
 	h.upd.client(name).DeviceUpdate(&Dev{Index: ic.Index, Oper: oper, Addrs: h.addrs(ic)})
 }
